@@ -33,6 +33,8 @@ Init == /\ m \in AllMacros /\ form \in Forms(m) /\ tc \in BOOLEAN
         /\ taken \in {"no", "same", "otherkind"}      \* the name is fresh / taken by an equal metric / taken by a metric of another kind
 Spec == Init /\ [][UNCHANGED vars]_vars
 
+\* opts!(name, help, map1, map2, ...): the maps are merged left to right (HashMap::extend in the macro body), a name given twice keeps
+\* the LATER value; `const` below is the merged map.
 \* the explicit twin: constructor + arguments
 Twin == [ctor |-> m, const |-> const, labels |-> labels, buckets |-> buckets]     \* name and help are supplied by the harness (unique per case)
 \* a fresh name is admitted; a name whose descriptor is already registered in the target registry is refused
